@@ -16,6 +16,7 @@ RULES: Dict[str, str] = {
     'R-ACCEPTS-PURE': 'sa.rules.effects:run_accepts_pure',
     'R-LOAD-PURE': 'sa.rules.effects:run_load_pure',
     'R-INDENT-PAIRING': 'sa.rules.indenter:run_pairing',
+    'R-INDENT-GRAMMAR': 'sa.rules.indenter:run_grammar',
     'R-SPLIT-TOTAL': 'sa.rules.indenter:run_split_total',
     'R-SERIAL-AGREE': 'sa.rules.serial:run_agree',
     'R-SERIAL-NORM': 'sa.rules.serial:run_norm',
@@ -151,7 +152,7 @@ PROPERTIES.update({
               'children before parents; nodes are named identically at every site; the transformer classes work inside the generated module.',
               'equality of results for all grammars/transformers; once-per-node counting on DAGs.',
               'sibling feature extraction and comparison'),
-    'C18': _p(['R-INDENT-PAIRING', 'R-POSTLEX-RESET', 'R-SPLIT-TOTAL', 'R-TOKEN-NONE-TEST'],
+    'C18': _p(['R-INDENT-PAIRING', 'R-INDENT-GRAMMAR', 'R-POSTLEX-RESET', 'R-SPLIT-TOTAL', 'R-TOKEN-NONE-TEST'],
               'one INDENT per push (guarded by width > top), one DEDENT per pop, drain to depth 1 at end of stream, nothing inside brackets, '
               'DedentError on a dedent to a closed column, width = spaces + tabs*tab_len after the last newline, state reset per stream, no '
               'partial string operation on the newline token, end-of-stream DEDENTs borrow the last token by identity test.',
